@@ -31,6 +31,7 @@ type clientCore struct {
 	armed bool
 	pendingBarrierPongs int
 	pingsSent int
+	episode int // connects so far: every Connect uses its own client id (see connect)
 	inWin chan struct{}
 	relse chan struct{}
 }
@@ -425,7 +426,11 @@ func (c *clientCore) handle(ws []string) string {
 		cln := &service.Client{}
 		msg := message.NewConnectMessage()
 		msg.SetVersion(4)
-		msg.SetClientID([]byte("subject"))
+		// service.Client.Connect registers a topics provider under the client id in a process-global
+		// registry and panics on a duplicate; a previous episode's Disconnect that is still running
+		// (teardown waits at most 3 s) must not make this Connect panic: one id per Connect.
+		c.episode++
+		msg.SetClientID([]byte(fmt.Sprintf("subject%d", c.episode)))
 		msg.SetCleanSession(true)
 		msg.SetKeepAlive(300)
 		err = cln.Connect("tcp://"+ln.Addr().String(), msg)
